@@ -18,38 +18,20 @@ set_option maxRecDepth 100000
 
 /-! ## generated tables -/
 
-/-- the four canonical pair mappings with a non-starter first character, which Unicode excludes from
-    composition (Full_Composition_Exclusion; commented out in CompositionExclusions.txt) and HarfBuzz
-    does not compose, but `unicode_norm.rs::COMPOSITION_TABLE` contains -/
-def nonStarterPairs : List (Nat × Nat) :=
-  [(0x308 * 2 ^ 32 + 0x301, 0x344), (0xF71 * 2 ^ 32 + 0xF72, 0xF73), (0xF71 * 2 ^ 32 + 0xF74, 0xF75),
-   (0xF71 * 2 ^ 32 + 0xF80, 0xF81)]
-
-/- Full-strength statement (FALSE of the current crate, see `known_C09_comp_has_excluded_pairs`):
-   theorem C09_tables_match_ref :
-     Norm.decompTable = mergeKeys _ NormRef.decompTable NormRef.newDecomp ∧
-     Norm.compTable = mergeKeys _ NormRef.compTable NormRef.newComp -/
-
 /-- The crate's tables restricted to characters assigned in the reference's Unicode version are the
     reference's: the decomposition table is the key-ordered merge of CPython's canonical mappings with
     the rows of characters unassigned there; the composition table is the merge of CPython's primary
-    composites, the rows of unassigned characters and the four non-starter pairs (the finding). -/
-theorem C09_tables_match_ref_partial :
+    composites (canonical pair mappings that are not composition-excluded) with the rows of unassigned
+    characters.  (Before the repair of COMPOSITION_TABLE the four non-starter pairs U+0308 U+0301,
+    U+0F71 U+0F72/0F74/0F80 were in the table and this held only without them.) -/
+theorem C09_tables_match_ref :
     Norm.decompTable = mergeKeys 3000 NormRef.decompTable NormRef.newDecomp ∧
-    Norm.compTable = mergeKeys 2000 (mergeKeys 2000 NormRef.compTable NormRef.newComp) nonStarterPairs := by
+    Norm.compTable = mergeKeys 2000 NormRef.compTable NormRef.newComp := by
   have h1 : (Norm.decompTable == mergeKeys 3000 NormRef.decompTable NormRef.newDecomp) = true := by
     decide +kernel
-  have h2 : (Norm.compTable ==
-      mergeKeys 2000 (mergeKeys 2000 NormRef.compTable NormRef.newComp) nonStarterPairs) = true := by
+  have h2 : (Norm.compTable == mergeKeys 2000 NormRef.compTable NormRef.newComp) = true := by
     decide +kernel
   exact ⟨eq_of_beq h1, eq_of_beq h2⟩
-
-/-- counter-example to the full statement: the crate composes the excluded pairs, the reference lists
-    them as composition exclusions (witness replayed on the crate by `./check C09`: `norm compose 776 769`) -/
-theorem known_C09_comp_has_excluded_pairs :
-    (∀ r ∈ nonStarterPairs, lookup Norm.compTable r.1 = some r.2 ∧ lookup NormRef.exclTable r.1 = some r.2 ∧
-      lookup NormRef.compTable r.1 = none) := by
-  decide +kernel
 
 /-- Consistency of the crate's tables: both are strictly sorted by key, hence the binary searches of
     `unicode::compose` / `unicode::decompose` return the row with that key, if any (generic lemma
@@ -120,28 +102,17 @@ theorem C09_mcc_classes :
 
 /-! ## Hangul arithmetic (unicode.rs::compose_hangul / decompose_hangul) -/
 
-/- Full-strength statement (FALSE of the current crate, see `known_C09_hangul_tbase`):
-   theorem C09_hangul_roundtrip :
-     (∀ s a b, s < 2 ^ 32 → decomposeHangul genH s = some (a, b) → composeHangul genH a b = some s) ∧
-     (∀ a b s, composeHangul genH a b = some s → decomposeHangul genH s = some (a, b)) -/
-
 /-- Every Hangul decomposition composes back, and every Hangul composition decomposes back to its two
-    arguments — except when the second argument is `T_BASE` itself (U+11A7, not a trailing consonant),
-    which `compose_hangul` accepts (`T_BASE <= v`; HarfBuzz tests `TBASE < b`). -/
-theorem C09_hangul_roundtrip_partial :
+    arguments (all values; `compose_hangul` requires `T_BASE < v` since the repair). -/
+theorem C09_hangul_roundtrip :
     (∀ s a b, s < 2 ^ 32 → decomposeHangul genH s = some (a, b) → composeHangul genH a b = some s) ∧
-    (∀ a b s, b ≠ genH.tBase → composeHangul genH a b = some s → decomposeHangul genH s = some (a, b)) :=
+    (∀ a b s, composeHangul genH a b = some s → decomposeHangul genH s = some (a, b)) :=
   ⟨fun s a b hs h => hangul_rt1 genH genH_std s a b hs h,
-   fun a b s hb h => hangul_rt2 genH genH_std a b s hb h⟩
+   fun a b s h => hangul_rt2 genH genH_std a b s h⟩
 
-example : decomposeHangul genH 0xAC01 = some (0xAC00, 0x11A8) ∧ composeHangul genH 0xAC00 0x11A8 = some 0xAC01 := by
-  decide
-
-/-- counter-example to the full statement: LV + U+11A7 "composes" to LV itself, i.e. U+11A7 would be
-    swallowed (witness replayed on the crate by `./check C09`: `norm compose 44032 4519`) -/
-theorem known_C09_hangul_tbase :
-    composeHangul genH 0xAC00 0x11A7 = some 0xAC00 ∧ decomposeHangul genH 0xAC00 = some (0x1100, 0x1161) := by
-  decide
+example : decomposeHangul genH 0xAC01 = some (0xAC00, 0x11A8) ∧ composeHangul genH 0xAC00 0x11A8 = some 0xAC01 ∧
+    composeHangul genH 0xAC00 0x11A7 = none := by
+  decide +kernel
 
 /-! ## one-character buffers -/
 
@@ -243,18 +214,18 @@ example : let F : Font := { glyph := fun c => if c = 0x41 ∨ c = 0x302 ∨ c = 
     a permutation, sorted, and the records of each class keep their relative order.
     (3) is the C08 part: the round only permutes the records. -/
 theorem C09_sort_canonical (K : Consts) :
-    (∀ l, (round2 K l).map strip = canonReorder K.maxMarks (l.map strip)) ∧
+    (∀ l, (round2 K [] l).map strip = canonReorder K.maxMarks (l.map strip)) ∧
     (∀ run, (insertAll [] run).Perm run ∧ SortedMcc (insertAll [] run) ∧
       ∀ c, (insertAll [] run).filter (fun y => y.mcc == c) = run.filter (fun y => y.mcc == c)) ∧
-    (∀ l, ((round2 K l).map strip).Perm (l.map strip)) := by
-  refine ⟨round2_strip K, ?_, ?_⟩
+    (∀ l, ((round2 K [] l).map strip).Perm (l.map strip)) := by
+  refine ⟨fun l => by simpa using round2_strip K [] l, ?_, ?_⟩
   · intro run
     refine ⟨by simpa using insertAll_perm [] run, insertAll_sorted [] run List.Pairwise.nil, ?_⟩
     intro c
     simpa using insertAll_stable [] run c
   · intro l
     rw [round2_strip]
-    exact canonReorder_perm _ _
+    simpa using canonReorder_perm _ _
 
 /-- the cap of the reorder round is HarfBuzz's `HB_OT_SHAPE_MAX_COMBINING_MARKS` -/
 theorem C09_max_combining_marks : genK.maxMarks = 32 := rfl
@@ -262,8 +233,19 @@ theorem C09_max_combining_marks : genK.maxMarks = 32 := rfl
 /-- the sort does reorder: acute (230) before dot below (220) is swapped, and the clusters are merged -/
 example :
     let mk (cp cl ccc : Nat) : Info := { cp := cp, mask := 0, cluster := cl, gidx := 0, props := { cls := 1, hi := ccc } }
-    sortGo genK [] 2 [mk 0x301 1 230, mk 0x323 2 220] = [mk 0x323 1 220, mk 0x301 1 230] := by
+    sortGo genK [] [] 2 [mk 0x301 1 230, mk 0x323 2 220] = [mk 0x323 1 220, mk 0x301 1 230] := by
   decide
+
+/-- with the repaired "extend start" loop of `merge_clusters_impl` (D4; `Gen.Buf.extendStartGuard = 1`)
+    the merge also reaches back to the base that shares the cluster of the first moved mark -/
+example (h : Gen.Buf.extendStartGuard = 1) :
+    let mk (cp cl ccc : Nat) : Info := { cp := cp, mask := 0, cluster := cl, gidx := 0, props := { cls := 1, hi := ccc } }
+    let b : Info := { cp := 0x61, mask := 0, cluster := 2, gidx := 0, props := {} }
+    sortGo genK [b] [] 2 [mk 0x301 2 230, mk 0x323 1 220] =
+      [{ b with cluster := 1 }, mk 0x323 1 220, mk 0x301 1 230] := by
+  intro mk b
+  simp [sortGo, sortStep, mergeClusters, extendStart, h, rotateRight1, setCluster, minCluster, lastOf,
+    Info.mcc, Info.isMark, mk, b, genK]
 
 /-! ## the recomposition round -/
 
@@ -319,8 +301,8 @@ theorem C09_cluster (U : UData) (F : Font) (K : Consts) (fuel pref : Nat)
       | none => none
       | some (o, f) =>
         if pref = 2 ∨ pref = 3 ∨ pref = 4 then
-          some (round3 U F K (if f &&& K.flagCGJ ≠ 0 then cgjRound (round2 K o) else round2 K o) f)
-        else some (if f &&& K.flagCGJ ≠ 0 then cgjRound (round2 K o) else round2 K o, f) :=
+          some (round3 U F K (if f &&& K.flagCGJ ≠ 0 then cgjRound (round2 K [] o) else round2 K [] o) f)
+        else some (if f &&& K.flagCGJ ≠ 0 then cgjRound (round2 K [] o) else round2 K [] o, f) :=
   normalize_cluster U F K fuel pref s m ms flags hm hvs
 
 example : let m : Info := { cp := 0x301, mask := 0, cluster := 1, gidx := 0, props := { cls := 1, hi := 230 } }
